@@ -43,7 +43,17 @@ pub enum Action {
 	/// Deliver a corrupted copy of the revoke_and_ack at the head of link from→to
 	/// (variant 0: one bit of the secret flipped; 1: the previous secret replayed).
 	TamperRaa(usize, usize, u8),
+	/// Deliver a corrupted copy of the commitment_signed at the head of link from→to: variant 0 replaces the
+	/// commitment signature by another valid-looking one, variant 1+i replaces HTLC signature i by a
+	/// neighbouring (valid for another transaction) signature.
+	TamperCommit(usize, usize, u8),
 	Finish,
+}
+
+fn fixed_signature() -> bitcoin::secp256k1::ecdsa::Signature {
+	use bitcoin::secp256k1::{Message, Secp256k1, SecretKey};
+	let secp = Secp256k1::new();
+	secp.sign_ecdsa(&Message::from_digest([0x42; 32]), &SecretKey::from_slice(&[0x17; 32]).unwrap())
 }
 
 pub fn encode_action(a: &Action) -> String {
@@ -72,6 +82,7 @@ pub fn encode_action(a: &Action) -> String {
 		Action::Sweep(n) => format!("sweep:{}", n),
 		Action::Stall(k) => format!("stall:{}", k),
 		Action::TamperRaa(f, t, v) => format!("tamper:{}:{}:{}", f, t, v),
+		Action::TamperCommit(f, t, v) => format!("tampercs:{}:{}:{}", f, t, v),
 		Action::Finish => "fin".to_string(),
 	}
 }
@@ -130,6 +141,10 @@ pub fn decode_action(s: &str) -> Option<Action> {
 		"tamper" => {
 			let v = nums(':');
 			Action::TamperRaa(*v.get(0)? as usize, *v.get(1)? as usize, *v.get(2)? as u8)
+		},
+		"tampercs" => {
+			let v = nums(':');
+			Action::TamperCommit(*v.get(0)? as usize, *v.get(1)? as usize, *v.get(2)? as u8)
 		},
 		"fin" => Action::Finish,
 		_ => return None,
@@ -205,6 +220,7 @@ pub struct Deviations {
 	/// cost of completing a monitor update out of default order (default: oldest first, immediately)
 	pub complete_reorder: Option<u32>,
 	pub tamper_raa: Option<u32>,
+	pub tamper_commit: Option<u32>,
 	/// sticky delays: hold a node's event processing / a link's deliveries until released
 	pub hold_events: Option<u32>,
 	pub hold_link: Option<u32>,
@@ -235,6 +251,7 @@ impl Default for Deviations {
 			crash_inside: None,
 			complete_reorder: Some(1),
 			tamper_raa: None,
+			tamper_commit: None,
 			hold_events: None,
 			hold_link: None,
 			hold_manager: None,
@@ -752,6 +769,22 @@ impl WorldSys {
 					self.w.deliver_wire(*f, *t, crate::world::Wire::Raa(bad));
 				}
 			},
+			Action::TamperCommit(f, t, variant) => {
+				self.tampered = true;
+				if let Some(crate::world::Wire::Commit(m)) = self.w.links.get_mut(&(*f, *t)).and_then(|q| q.pop_front()) {
+					let mut bad = m.clone();
+					let n = bad.htlc_signatures.len();
+					if *variant == 0 {
+						// some other valid-format signature: an HTLC signature if there is one, else a fixed signature
+						bad.signature = if n > 0 { bad.htlc_signatures[0] } else { fixed_signature() };
+					} else {
+						let i = (*variant - 1) as usize;
+						bad.htlc_signatures[i] = if n > 1 { m.htlc_signatures[(i + 1) % n] } else { m.signature };
+					}
+					self.w.obs.push(Obs::Api { node: *t, what: "tamper-cs".into(), ok: true, detail: format!("variant {} of {} htlc signatures", variant, n) });
+					self.w.deliver_wire(*f, *t, crate::world::Wire::Commit(bad));
+				}
+			},
 			Action::Op(i) => {
 				self.do_op(*i);
 				self.next_op = *i + 1;
@@ -1040,6 +1073,17 @@ impl System for WorldSys {
 								|| matches!(self.w.links.get(&(a, b)).and_then(|q| q.front()), Some(crate::world::Wire::Commit(_)) | Some(crate::world::Wire::Raa(_))))
 						{
 							out.push((Action::HoldLink(a, b), c));
+						}
+					}
+				}
+			}
+		}
+		if let Some(c) = self.dev.tamper_commit {
+			if !self.tampered {
+				for ((f, t), q) in self.w.links.iter() {
+					if let Some(crate::world::Wire::Commit(m)) = q.front() {
+						for v in 0..=(m.htlc_signatures.len() as u8) {
+							out.push((Action::TamperCommit(*f, *t, v), c));
 						}
 					}
 				}
